@@ -66,7 +66,15 @@ pub fn drive(args: &[String]) {
                 let (r, c) = positions[*pi];
                 let mut buf = Vec::new();
                 if *kind < 5 {
-                    h.draw(&mut buf, img, Position::new(r, c)).unwrap();
+                    // every third history draws into a sink that accepts only a few bytes per call (pipes, sockets and
+                    // non-blocking descriptors do that)
+                    if hid % 3 == 1 {
+                        let mut short = crate::c12::Short(Vec::new(), [1usize, 7, 100, 1000][(hid as usize / 3 + ops.len()) % 4]);
+                        h.draw(&mut short, img, Position::new(r, c)).unwrap();
+                        buf = short.0;
+                    } else {
+                        h.draw(&mut buf, img, Position::new(r, c)).unwrap();
+                    }
                     if let (Some(id), Some(p)) = (scan_num(&buf, b"i="), scan_num(&buf, b"p=")) {
                         last[*ii] = Some((id, p, (r, c)));
                     }
